@@ -119,6 +119,9 @@ def http_seams(sched: Scheduler, det: DetRandom, *, storage: "SimStorage | None"
     ]
     if storage is not None:
         patches.append((m_ext, "fetch_url", storage.fetch_url))
+    # a seam exists only where the module still has the global (an unused import may have been removed): re-pointing a name
+    # the module does not use changes nothing, and its absence must not stop the run
+    patches = [(m, a, v) for m, a, v in patches if hasattr(m, a)]
     saved = [(m, a, getattr(m, a)) for m, a, _ in patches]
     # the sticky reaper is a real thread on a real 1 s tick: the simulation ticks it itself
     saved_reaper = m_sticky._StickyMiddleware._ensure_reaper
